@@ -20,9 +20,12 @@ def _to_list(val: Union['Task', Iterable['Task']]) -> List['Task']:
         raise RuntimeError("Unsupported type", type(val))
 
 
+# noinspection PyProtectedMember
 def _find_root(task: 'Task'):
-    if task.parent is not None:
-        return _find_root(task.parent)
+    # The raw parent is followed (not the public one, which hides the WBS root),
+    # so that the root of a task attached to a WBS is the root of the whole WBS.
+    while task._Task__parent is not None:
+        task = task._Task__parent
     return task
 
 
@@ -41,13 +44,21 @@ def _has_id_intersection(parent: 'Task', children: Iterable['Task']):
         all_children_tasks += _collect_subtree(ch)
 
     parent_tree_object_ids = set([id(t) for t in parent_tree])
-    new_tasks = [t for t in all_children_tasks if id(t) not in parent_tree_object_ids]
+    new_tasks = []
+    new_tasks_object_ids = set()
+    for t in all_children_tasks:
+        if id(t) not in parent_tree_object_ids and id(t) not in new_tasks_object_ids:
+            new_tasks_object_ids.add(id(t))
+            new_tasks.append(t)
 
     if len(new_tasks) == 0:
         return False
 
     parent_tree_ids = set([t.id for t in parent_tree])
     new_task_ids = set([t.id for t in new_tasks])
+    if len(new_task_ids) < len(new_tasks):
+        # two different incoming tasks share an id
+        return True
     return len(parent_tree_ids.intersection(new_task_ids)) > 0
 
 
